@@ -495,6 +495,7 @@ class World(BaseWorld):
     def __init__(self, L, page=None, batch=None):
         self.fs = ModelFS(self)
         self.dbs = {}  # path -> ModelDB
+        self.interner = sqlmodel.Interner()  # one id space for all databases of this world
         super().__init__(L, page, batch)
 
     # ---- clock
@@ -528,6 +529,7 @@ class World(BaseWorld):
     def db_for(self, path):
         if path not in self.dbs:
             db = ModelDB(self)
+            db.intern = self.interner
             self.dbs[path] = db
             self.fs.add_file(path, b'<sqlite>')
         return self.dbs[path]
@@ -617,12 +619,8 @@ class World(BaseWorld):
     def clone_handle(self, obj0):
         return clone_handle(self, obj0)
 
-    @property
-    def interner(self):
-        return self.db_for(posixpath.join(self.dir, 'cache.db')).intern
-
     def intern_text(self, s):
-        return self.db_for(posixpath.join(self.dir, 'cache.db')).intern.intern(sqlmodel.TEXT, s)
+        return self.interner.intern(sqlmodel.TEXT, s)
 
     def set_page_count(self, cache, fn):
         cache._con.db.page_count = fn
@@ -696,7 +694,11 @@ class World(BaseWorld):
     def bind(self, v):
         if isinstance(v, SymContent):
             return Cell(sqlmodel.BLOB, v.cid)
-        return Connection(self.db_for(posixpath.join(self.dir, 'cache.db'))).bind(v)
+        if not hasattr(self, '_bind_con'):
+            db = ModelDB(self)
+            db.intern = self.interner
+            self._bind_con = Connection(db)
+        return self._bind_con.bind(v)
 
     def file_content(self, cache, rel):
         return self.fs.files[posixpath.join(cache._directory, rel)].content
@@ -734,7 +736,15 @@ def _clone_db(world, db0):
     db0.clone_schema_into(db)
     db._trigger_names = list(getattr(db0, '_trigger_names', []))
     db.committed = db0.committed.copy()
-    db.intern = copy.deepcopy(db0.intern)
+    # re-intern the template's strings into the world's single id space
+    db.intern = world.interner
+    for rows in db.committed.tables.values():
+        for r in rows:
+            for col, cell in list(r.c.items()):
+                k = cell.cls
+                if k in (sqlmodel.TEXT, sqlmodel.BLOB) and not sx.isz(cell.num):
+                    obj = db0.intern.lookup(k, cell.num)
+                    r.c[col] = Cell(k, world.interner.intern(k, obj))
     return db
 
 
